@@ -249,6 +249,12 @@ package db
 //@   ensures colSaves <= old(colSaves) + 2
 //@   modifies colSaves
 //@   tags C19 C05
+//@ // activating a version that was not active deactivates the one that was: the search for it covers the
+//@ // versions below the requested one and, from the first version of the collection, all those above
+//@ func (*DB).setActiveSchemaVersion
+//@   assert before call#1 getActiveCollectionUp: arg3 == rootCol.VersionID && (len(sources) == 0 ==> rootCol.VersionID == res(GetCollectionByID, 1, 0).VersionID)
+//@   assert before call#2 SaveCollection: arg1.VersionID == activeCol.VersionID && isActiveFound
+//@   tags C19
 //@ apply ErrFlow: (*DB).setActiveSchemaVersion, (*DB).patchSchema
 //@ // a node merging commits of a newer schema version ignores fields it does not know, and only those
 //@ extern (client.CollectionDefinition).GetFieldByName(d, name) -> (f, ok)
